@@ -66,6 +66,28 @@ CHECKS = {
         "Taps read locals by name (lost observability => inconclusive, never held); vector and dict observations only.",
         "DESIGN.md#c17",
     ),
+    "C07": (
+        True,
+        "exploration",
+        "save/load round trip on agents with seeded histories: strict structural equality walker + paired continuation differential (same batches, same RNG state) for both load paths",
+        "Every algorithm x observation family (plus RSNorm-wrapped agents) is saved after a prefix of a seeded history "
+        "(learn steps, mutations, clones, tournament rounds) and restored through Algo.load and load_checkpoint; all leaves "
+        "incl. target networks, optimizer state and bookkeeping are compared, then original and restored agent learn k more "
+        "steps from identical batches.",
+        "CPU only; checkpoint metadata attributes and the OptimizerWrapper.lr echo are not compared; float tolerance as C01.",
+        "DESIGN.md#c07",
+    ),
+    "C13": (
+        True,
+        "fault_enumeration",
+        "reference state machine over all interface-call sequences (length<=3/4) + fault plans injected into scripted sub-environments (raise / sleep past timeout / kill) with structural dead-lock detection from /proc and faulthandler",
+        "Misuse sequences are enumerated exhaustively up to the bound and compared with the documented error type and with "
+        "counter-predicted return values; worker faults are enumerated over command x invocation x worker x kind (single and "
+        "double); every scenario runs in its own driver process, hangs are decided structurally (driver blocked in recv/wait "
+        "while every worker is dead or blocked), never by a stopwatch.",
+        "fork start method only; bounded sequence length; 'promptly' = no dead-lock state and return within the watchdog.",
+        "DESIGN.md#c13",
+    ),
 }
 
 NOT_YET = "check not built yet in this round (framework under construction); see DESIGN.md section for the plan"
